@@ -110,9 +110,7 @@ func (f UpdateHandlerFunc) HandleUpdate(s *channel.State, u ChannelUpdate, r *Up
 
 // Accept accepts the channel update.
 func (r *UpdateResponder) Accept(ctx context.Context) error {
-	defer func() {
-		r.done <- struct{}{}
-	}()
+	defer r.signalDone()
 
 	if ctx == nil {
 		return errors.New("context must not be nil")
@@ -124,11 +122,18 @@ func (r *UpdateResponder) Accept(ctx context.Context) error {
 	return r.channel.acceptUpdate(ctx, r.pidx, r.req)
 }
 
+// signalDone signals that the responder has been called. A response that is
+// not awaited (virtual channel proposals) or a repeated call must not block.
+func (r *UpdateResponder) signalDone() {
+	select {
+	case r.done <- struct{}{}:
+	default:
+	}
+}
+
 // Reject rejects the channel update.
 func (r *UpdateResponder) Reject(ctx context.Context, reason string) error {
-	defer func() {
-		r.done <- struct{}{}
-	}()
+	defer r.signalDone()
 
 	if ctx == nil {
 		return errors.New("context must not be nil")
